@@ -645,6 +645,8 @@ pub fn decode_table() -> Vec<(Ins, String)> {
         for b in [5u8, 1, 10] {
             t.push((Ins::new("jalr", vec![r(a), r(b), i(0)]), base.clone()));
             t.push((Ins::new("jalr", vec![r(a), r(b), i(4)]), base.clone()));
+            t.push((Ins::new("jalr", vec![r(b), i(0)]), "jalr-reg-imm".to_string()));
+            t.push((Ins::new("jalr", vec![r(b), i(4)]), "jalr-reg-imm".to_string()));
             t.push((Ins::new("jalr", vec![r(a), m(0, b)]), "jalr-mem".to_string()));
             t.push((Ins::new("jalr", vec![r(a), m(4, b)]), "jalr-mem".to_string()));
         }
